@@ -203,6 +203,17 @@ class CallMixin:
         self.fill_defaults(f, a, env)
         for p in pos + list(a.kwonlyargs):
             if p.arg not in env:
+                sp = rest[0] if rest and isinstance(rest[0], SSplat) and p in pos and a.vararg is not None else None
+                if sp is not None and isinstance(sp.value, (SObj, SList, SNew)):
+                    # f(*xs) into `def f(first, *more)`: `first` takes the first element; an empty xs is a TypeError
+                    uid = getattr(sp.value, "uid", 0)
+                    if self.run.path.choose(("splat-empty", uid, f.qual, p.arg), 2, (f"*{short(sp.value)} is non-empty", f"*{short(sp.value)} is empty")) == 1:
+                        self.raise_exc("TypeError", node)
+                    ks = self.coll_elem_kinds(sp.value) if isinstance(sp.value, (SObj, SNew)) else ALL_KINDS
+                    o = SObj(f"{short(sp.value)}[0]", ks, origin=_elem_origin(sp.value) if isinstance(sp.value, (SObj, SNew)) else "input")
+                    o.elem_of = (sp.value, ("first",)) if isinstance(sp.value, SObj) else None
+                    env[p.arg] = o
+                    continue
                 raise self.unmodelled(f"missing argument `{p.arg}` for {f.qual}", node)
         return env
 
@@ -395,6 +406,8 @@ class CallMixin:
         if py in (int, float):
             return SOpaque((py.__name__, short(args[0]) if args else ""), {"INT" if py is int else "FLOAT"})
         if py is type and len(args) == 1:
+            if args[0] is None or isinstance(args[0], (bool, int, float, str)):
+                return TypeRef(py=type(args[0]))      # type(None), type(0) ... : the class of a constant
             o = SOpaque(("type", short(args[0])))
             o.__dict__["type_of"] = args[0]
             return o
@@ -533,6 +546,8 @@ class CallMixin:
             if nm == "hasattr":
                 return run.decide(("hasattr", _ref(args[0]), short(args[1])))
             if nm == "type":
+                if len(args) == 1 and (args[0] is None or isinstance(args[0], (bool, int, float, str))):
+                    return TypeRef(py=type(args[0]))
                 o = SOpaque(("type", _ref(args[0])))
                 o.__dict__["type_of"] = args[0]
                 return o
